@@ -105,6 +105,9 @@ def run(ctx):
     import os as _os5
     n_cn = count_narrow(ctx, prog, eff, frozen=_lf_cn(_os5.path.join(_os5.path.dirname(_os5.path.dirname(_os5.path.abspath(__file__))), 'tables', 'c05_countnarrow.tsv')))
     ctx.require(n_cn >= 300, 'only %d narrowing conversions found in the typed read / write functions' % n_cn)
+    from engine.fixture import generic_fixture as _gf5
+    from engine.effects import Effects as _Ef5
+    _gf5(ctx, [('COUNT-NARROW', lambda c_, p_: count_narrow(c_, p_, _Ef5(p_), fns=[g_ for g_ in p_.all_fns() if g_.name.endswith('_countnarrow')]), 'bad_countnarrow')])
 
     from engine.run import borrow
     borrow(ctx, 'C03', ['TABLE-INDEX'], 'a write call whose sample value steers a table subscript outside the table reads memory outside anything the caller supplied (G.711 float encoders)')
